@@ -399,9 +399,17 @@ func (s *Solver) classify(lines []string) Result {
 	res := Unknown
 	got := false
 	for _, l := range lines {
+		if strings.HasPrefix(l, "(error \"solver pipe closed") || strings.HasPrefix(l, "(error \"solver process dead") {
+			// our own marker for a killed/dead solver process: an unknown answer, not a solver error line
+			s.LastErr = l
+			return Unknown
+		}
 		if strings.HasPrefix(l, "(error") {
 			s.Stats.Errors++
 			s.LastErr = l
+			if SlowLog != nil {
+				fmt.Fprintf(SlowLog, "solver error line: %s\n", l)
+			}
 			return Unknown
 		}
 		switch l {
